@@ -169,9 +169,17 @@ void walk(const N& n, std::string& out, int depth = 0) {
     out += v ? 't' : 'f'; return;
   }
   if (n.IsNumber()) {
-    if (n.IsDouble()) { double d = n.GetDouble(); uint64_t u; memcpy(&u, &d, 8); snprintf(b, sizeof b, "d%016llx", (unsigned long long)u); }
-    else if (n.IsUint64()) snprintf(b, sizeof b, "u%llu", (unsigned long long)n.GetUint64());
-    else if (n.IsInt64()) snprintf(b, sizeof b, "i%lld", (long long)n.GetInt64());
+    if (n.IsDouble()) { double d = n.GetDouble(); uint64_t u; memcpy(&u, &d, 8); snprintf(b, sizeof b, "d%016llx", (unsigned long long)u); if (n.IsUint64() || n.IsInt64()) violate("model", "walk", "a double node claims to be an integer"); }
+    else if (n.IsUint64()) {
+      uint64_t u = n.GetUint64();
+      snprintf(b, sizeof b, "u%llu", (unsigned long long)u);
+      if (n.IsInt64() != (u <= (uint64_t)INT64_MAX) || (n.IsInt64() && n.GetInt64() != (int64_t)u) || n.GetDouble() != (double)u) violate("model", "walk", "integer getters disagree for an unsigned node");
+    }
+    else if (n.IsInt64()) {
+      int64_t i = n.GetInt64();
+      snprintf(b, sizeof b, "i%lld", (long long)i);
+      if (i >= 0 || n.GetDouble() != (double)i) violate("model", "walk", "integer getters disagree for a negative node");
+    }
     else snprintf(b, sizeof b, "?num");
     out += b; return;
   }
